@@ -120,6 +120,12 @@ impl Recorder {
         self.push(seq, base_event(seq, ev, "", "", id, "", 0, 0, a, op, ok));
     }
 
+    /// driver-side event about one file (external damage between sessions)
+    pub fn file_event(&self, ev: &str, f: &str, kind: &str, id: i64) {
+        let seq = pearl::verif::next_seq();
+        self.push(seq, base_event(seq, ev, f, kind, id, "w", 0, 0, 0, "", true));
+    }
+
     /// take all events recorded so far, in sequence order
     pub fn drain(&self) -> Vec<Value> {
         let mut v = std::mem::take(&mut *self.events.lock().unwrap());
@@ -176,7 +182,9 @@ impl Tap for Recorder {
                 a = bs as i64;
             }
         }
-        let mut v = base_event(ev.seq, opn, &name, &kind, id, &loc, ev.off, ev.len, a, "", verdict == Verdict::Proceed);
+        let len = if ev.op == IoOp::Open { std::fs::metadata(ev.path).map(|m| m.len()).unwrap_or(0) } else { ev.len };
+        let mut v = base_event(ev.seq, opn, &name, &kind, id, &loc, ev.off, len, a, "", verdict == Verdict::Proceed);
+        v["w"] = json!(0);
         if let Some((_, w)) = extra {
             v["w"] = json!(w);
         }
